@@ -141,7 +141,12 @@ def run(ctx):
     for variant, en in (('plain', True), ('renamed', False), ('split', True)):
         hs = [[('write', 'd1/a', 'new'), ('load', False), ('delete', 'd1/a'), ('load', False)],
               [('write', 'd2/a', 'both'), ('ignored', 'd1/.hidden'), ('load', False), ('delete', 'd2/a'), ('load', False), ('load', False)],
-              [('write', 'main', 'new'), ('load', False), ('delete', 'main'), ('load', False)]]
+              [('write', 'main', 'new'), ('load', False), ('delete', 'main'), ('load', False)],
+              # a directory file replaced by renaming another into place (its own mtime equal / older, the
+              # directory's newer): the layering is over the files as they are now
+              [('write', 'd1/a', 'new'), ('load', False), ('replace', 'd1/a', 'new', False), ('load', False)],
+              [('write', 'main', 'new'), ('write', 'd1/b', 'both'), ('write', 'd1/a', 'new'), ('load', False), ('replace', 'd1/a', 'new', True), ('load', False), ('load', False)],
+              [('write', 'd2/a', 'old'), ('load', False), ('replace', 'd2/a', 'new', True), ('load', False)]]
         traces = [lc.run_history(rng, variant, en, h) for h in hs]
         n += len(traces)
         for idx, why, step in lc.judge_traces(ctx, variant, en, traces):
